@@ -304,6 +304,20 @@ var overlapForms = []map[string]interface{}{
 	{"a.l": []interface{}{map[string]interface{}{"x": uint64(1)}}, "a": map[string]interface{}{"l": []interface{}{map[string]interface{}{"x": uint64(2)}}}},
 	{"a": map[string]interface{}{"l": []interface{}{[]interface{}{uint64(1)}}}, "a.l": []interface{}{[]interface{}{uint64(2)}}},
 	{"a": map[string]interface{}{"l": []interface{}{nil, "y"}}, "a.l.1": "x"},
+	// two spellings of a namespace below the top level that share several names: the first shared
+	// name is a namespace without a clash, the doubly defined setting is a later sibling / a list entry
+	{"p": map[string]interface{}{"a": map[string]interface{}{"b": map[string]interface{}{"q": uint64(1)}, "x": uint64(1)}}, "p.a": map[string]interface{}{"b": map[string]interface{}{"r": uint64(2)}, "x": uint64(2)}},
+	{"p": map[string]interface{}{"a": map[string]interface{}{"b": map[string]interface{}{"q": uint64(1)}, "c": map[string]interface{}{"q": "s"}, "k": true}}, "p.a": map[string]interface{}{"b": map[string]interface{}{"r": uint64(2)}, "c": map[string]interface{}{"r": "t"}, "k": false}},
+	{"p": map[string]interface{}{"a": map[string]interface{}{"b": map[string]interface{}{"q": uint64(1)}, "l": []interface{}{"u", "v"}}}, "p.a": map[string]interface{}{"b": map[string]interface{}{"r": uint64(2)}, "l": []interface{}{nil, "w"}}},
+}
+
+// overlapFormsNum: names that are numbers, kept as names (EnableNumKeys): two names may spell one number
+var overlapFormsNum = []map[string]interface{}{
+	{"q": map[string]interface{}{"p": map[string]interface{}{"1": "a", "01": "b"}}, "q.p": map[string]interface{}{"1": "c", "01": "d"}},
+	{"q": map[string]interface{}{"p": map[string]interface{}{"2": "a", "10": "b", "1a": "e"}}, "q.p": map[string]interface{}{"10": "c", "2": "d", "1a": "f"}},
+	{"p": map[string]interface{}{"1": "a", "01": "b"}, "p.1": "c", "p.01": "d"},
+	{"p": map[string]interface{}{"2": "a", "10": "b", "1a": "e"}, "p.10": "c", "p.2": "d", "p.1a": "f"},
+	{"p": map[string]interface{}{"1": map[string]interface{}{"x": "a"}, "01": map[string]interface{}{"x": "b"}, "001": map[string]interface{}{"x": "b"}}, "p.1.x": "c", "p.01.x": "d", "p.001.x": "d"},
 }
 
 // overlapRandom: a tree some of whose settings are spelled a second time by dotted keys, with the
@@ -372,6 +386,13 @@ func genC05(g *Gen, c09 bool) {
 		g.Add(Case{Coq: fmt.Sprintf("CDup %s %s %s", o.coq(), kvsOf(r, m), coqList(coqs)),
 			Desc: map[string]interface{}{"kind": "dup", "form": i, "input": descTree(m), "outcomes": descs},
 			Tags: []string{"dup", fmt.Sprintf("outcomes=%d", len(coqs))}, Nontrivial: true})
+	}
+	for i, m := range overlapFormsNum {
+		o := normOpts{Sep: ".", NumKeys: true}
+		coqs, descs := repeatOutcomes(r, m, o, runs*2)
+		g.Add(Case{Coq: fmt.Sprintf("CDup %s %s %s", o.coq(), kvsOf(r, m), coqList(coqs)),
+			Desc: map[string]interface{}{"kind": "dup", "form": 100 + i, "numkeys": true, "input": descTree(m), "outcomes": descs},
+			Tags: []string{"dup", "numkeys", fmt.Sprintf("outcomes=%d", len(coqs))}, Nontrivial: true})
 	}
 	nset := n / 4
 	if c09 {
@@ -589,6 +610,73 @@ func genC05(g *Gen, c09 bool) {
 					Tags: []string{"repeat-unpack", fmt.Sprintf("outcomes=%d", len(cs))}, Nontrivial: true})
 			}
 		}
+		// histories whose calls carry different options: a reference stored by a call with VarExp is
+		// evaluated by a later Merge without it (both ends of the reference are overlaid by one call);
+		// names that spell one number, kept as names, with two different faults
+		c09Hist := func(label string, run func() (interface{}, error)) {
+			seen := map[string]bool{}
+			var coqs, descs []string
+			for k := 0; k < runs*3; k++ {
+				data, err := run()
+				var cq, d string
+				if err != nil {
+					cq, d = coqErr(err), descErr(err)
+				} else {
+					d = fmt.Sprintf("%v", data)
+					cq = "(OV (VStr " + coqStr(d) + "))"
+				}
+				if !seen[cq] {
+					seen[cq] = true
+					coqs = append(coqs, cq)
+					descs = append(descs, d)
+				}
+			}
+			g.Add(Case{Coq: fmt.Sprintf("CRepeat %s %s", coqStr(label), coqList(coqs)),
+				Desc: map[string]interface{}{"kind": "repeat-history", "history": label, "outcomes": descs},
+				Tags: []string{"repeat-history", fmt.Sprintf("outcomes=%d", len(coqs))}, Nontrivial: true})
+		}
+		c09Hist("NewFrom(VarExp) then Merge without VarExp over both ends of references", func() (interface{}, error) {
+			with := []ucfg.Option{ucfg.PathSep("."), ucfg.VarExp}
+			c, err := ucfg.NewFrom(map[string]interface{}{
+				"a": map[string]interface{}{"k": 1}, "z": "${a}",
+				"y": map[string]interface{}{"k": 1}, "b": "${y}",
+				"m": map[string]interface{}{"k": 1}, "n": "${m}"}, with...)
+			if err != nil {
+				return nil, err
+			}
+			if err := c.Merge(map[string]interface{}{
+				"a": map[string]interface{}{"j": 2}, "z": map[string]interface{}{"m": 3},
+				"y": map[string]interface{}{"j": 2}, "b": map[string]interface{}{"m": 3},
+				"m": map[string]interface{}{"j": 2}, "n": map[string]interface{}{"m": 3}}, ucfg.PathSep(".")); err != nil {
+				return nil, err
+			}
+			var to map[string]interface{}
+			err = c.Unpack(&to, with...)
+			return to, err
+		})
+		c09Hist("names that spell one number (EnableNumKeys) with two different faults", func() (interface{}, error) {
+			o := []ucfg.Option{ucfg.EnableNumKeys(true)}
+			c, err := ucfg.NewFrom(map[string]interface{}{"1": -1, "01": 300, "001": "x", "2": 1, "10": 2, "1a": 3}, o...)
+			if err != nil {
+				return nil, err
+			}
+			to := map[string]uint8{}
+			err = c.Unpack(&to, o...)
+			return to, err
+		})
+		c09Hist("numeric names and references merged twice (EnableNumKeys, VarExp)", func() (interface{}, error) {
+			o := []ucfg.Option{ucfg.EnableNumKeys(true), ucfg.VarExp}
+			c, err := ucfg.NewFrom(map[string]interface{}{"01": map[string]interface{}{"k": 1}, "1": "${01}", "02": map[string]interface{}{"k": 1}, "2": "${02}"}, o...)
+			if err != nil {
+				return nil, err
+			}
+			if err := c.Merge(map[string]interface{}{"01": map[string]interface{}{"j": 2}, "1": map[string]interface{}{"m": 3}, "02": map[string]interface{}{"j": 2}, "2": map[string]interface{}{"m": 3}}, o...); err != nil {
+				return nil, err
+			}
+			var to map[string]interface{}
+			err = c.Unpack(&to, o...)
+			return to, err
+		})
 		// interface-keyed maps with two distinct keys that spell the same name (a string and a
 		// value of a named string type): whatever such an input means, it means it every time
 		for i := 0; i < n/8+3; i++ {
